@@ -1,50 +1,67 @@
 (** C02: upstream answers revealing a blocked CNAME target, address or
     HTTPS address hint are not delivered.  Only statements here; proofs live
-    in Proofs/Pipeline.v. *)
+    in Proofs/Pipeline.v.  Round 2: the configuration includes the legacy
+    rewrites, $dnsrewrite rules, the hosts file, safe search, DDR and DHCP;
+    the theorems say when response filtering applies and that a rewritten
+    question's answer is (as the property allows) not filtered. *)
 From Coq Require Import List NArith Bool Permutation.
 From AGH Require Import Base.Run Base.NetAddr Base.RuleEngine Model.Pipeline Proofs.Pipeline.
+From AGH Require Model.Rewrites.
 Import ListNotations.
 Local Open Scope N_scope.
 
 (** For every answer section [pre ++ rr :: post] (any lengths, any record
     types) whose first offending record is [rr] (its CNAME target / address /
     one of its hints gets a filtered verdict from the rule lists: a block
-    rule wins and no allow-list rule matches that same name or address):
-    the client receives the blocking-mode answer for that rule, the original
-    answer is kept for the log, the recorded reason is FilteredBlockList. *)
+    rule wins, no allow-list rule matches and no $dnsrewrite rule applies to
+    that same name or address): the client receives the blocking-mode answer
+    for that rule with its own question, the original answer is kept for the
+    log, the recorded reason is FilteredBlockList. *)
 Theorem C02_offending_record_blocks :
-  forall allow_eng block_eng sb par c up q r pre rr0 post res,
-  response_filtering_applies allow_eng block_eng sb par c q ->
+  forall allow_eng block_eng sb par ss srt c up q r pre rr0 post res,
+  response_filtering_applies allow_eng block_eng sb par ss srt c q ->
   up (q_name q) (q_qtype q) = Some r ->
   rs_answer r = pre ++ rr0 :: post ->
-  Forall (clean allow_eng block_eng c (client_settings c q)) pre ->
-  check_rr allow_eng block_eng (client_settings c q) (strip_rr c rr0) = Some res ->
-  let o := process allow_eng block_eng sb par c up q in
+  Forall (clean allow_eng block_eng c (request_settings c q)) pre ->
+  check_rr allow_eng block_eng (request_settings c q) (strip_rr c rr0) = Some res ->
+  let o := process allow_eng block_eng sb par ss srt c up q in
   o_resp o = Some (synthetic c (q_name q) (q_qtype q) (ips_from_rules res)) /\
   o_result o = res /\ r_filtered res = true /\ r_reason res = FilteredBlockList /\
-  o_orig_kept o = true /\ o_calls o = [the_call q].
+  o_orig_kept o = true /\ o_calls o = [the_call q] /\ o_qname o = q_name q.
 Proof. exact offending_record_blocks. Qed.
 Print Assumptions C02_offending_record_blocks.
 
 (** What "offending" means for each record type, in terms of the rule check
     (matchHost on the lower-cased text with the record's type). *)
 Theorem C02_offending_means :
-  forall allow_eng block_eng (sb par : bytes -> bool) st r res,
+  forall allow_eng block_eng (sb par : bytes -> bool) (ss : bytes -> N -> option ssverdict) st r res,
   check_rr allow_eng block_eng st r = Some res ->
   r_filtered res = true /\ r_reason res = FilteredBlockList.
 Proof. exact check_rr_reason. Qed.
 Print Assumptions C02_offending_means.
 
+(** The interplay with $dnsrewrite, exactly as the code has it: a $dnsrewrite
+    rule that applies to a name or address (and no allow-list rule matching)
+    makes the rule check report "not filtered", whatever block rules name it;
+    such a record in an answer is clean. *)
+Theorem C02_dnsrewrite_shadows_block :
+  forall allow_eng block_eng st host qt,
+  snd (if st_protection st then allow_eng (rq_of st host qt) else (empty_result, false)) = false ->
+  matched (dnsrewrite_result (fst (block_eng (rq_of st host qt))) host) = true ->
+  r_filtered (match_host allow_eng block_eng st host qt) = false.
+Proof. exact dnsrewrite_shadows_block. Qed.
+Print Assumptions C02_dnsrewrite_shadows_block.
+
 (** No offending record: the upstream answer is delivered as it came, except
     that IPv6 hints are removed from HTTPS records when AAAA is disabled. *)
 Theorem C02_clean_answer_unchanged :
-  forall allow_eng block_eng sb par c up q r,
-  response_filtering_applies allow_eng block_eng sb par c q ->
+  forall allow_eng block_eng sb par ss srt c up q r,
+  response_filtering_applies allow_eng block_eng sb par ss srt c q ->
   up (q_name q) (q_qtype q) = Some r ->
-  Forall (clean allow_eng block_eng c (client_settings c q)) (rs_answer r) ->
-  let o := process allow_eng block_eng sb par c up q in
+  Forall (clean allow_eng block_eng c (request_settings c q)) (rs_answer r) ->
+  let o := process allow_eng block_eng sb par ss srt c up q in
   o_resp o = Some (mkResp (rs_rcode r) (map (strip_rr c) (rs_answer r)) (rs_soa r)) /\
-  o_orig_kept o = false /\ r_filtered (o_result o) = false.
+  o_orig_kept o = false /\ r_filtered (o_result o) = false /\ o_qname o = q_name q.
 Proof. exact clean_answer_unchanged. Qed.
 Print Assumptions C02_clean_answer_unchanged.
 
@@ -57,16 +74,33 @@ Print Assumptions C02_no_stripping_when_aaaa_enabled.
     filtering off for the client): the answer is delivered untouched whatever
     it contains. *)
 Theorem C02_gate_closed_unchanged :
-  forall allow_eng block_eng sb par c up q r,
-  passes_request_stage allow_eng block_eng sb par c q ->
+  forall allow_eng block_eng sb par ss srt c up q res r,
+  passes_request_stage allow_eng block_eng sb par ss srt c q res ->
   up (q_name q) (q_qtype q) = Some r ->
-  (r_reason (check_host allow_eng block_eng sb par (client_settings c q) (trim_dot (q_name q)) (q_qtype q))
-     = NotFilteredAllowList \/
-   protection_on c = false \/ st_filtering (client_settings c q) = false) ->
-  o_resp (process allow_eng block_eng sb par c up q) = Some r /\
-  o_orig_kept (process allow_eng block_eng sb par c up q) = false.
+  (r_reason res = NotFilteredAllowList \/
+   protection_on c = false \/ st_filtering (request_settings c q) = false) ->
+  o_resp (process allow_eng block_eng sb par ss srt c up q) = Some r /\
+  o_orig_kept (process allow_eng block_eng sb par ss srt c up q) = false.
 Proof. exact gate_closed_unchanged. Qed.
 Print Assumptions C02_gate_closed_unchanged.
+
+(** A rewritten question (legacy rewrite to a CNAME without addresses,
+    $dnsrewrite CNAME, safe-search CNAME): the target is resolved instead of
+    the client's name, the client's question is put back and the CNAME record
+    is put in front of whatever the upstream answered; those records are NOT
+    examined by response filtering ("neither allow-listed nor rewritten" in
+    the property's premise). *)
+Theorem C02_rewritten_answer_not_filtered :
+  forall allow_eng block_eng sb par ss srt c up q res r,
+  prefilter c q = PContinue false ->
+  verdict allow_eng block_eng sb par ss srt c q = Some res -> is_rewritten_cname res = true ->
+  up (fqdn (r_canon res)) (q_qtype q) = Some r ->
+  let o := process allow_eng block_eng sb par ss srt c up q in
+  o_resp o = Some (mkResp (rs_rcode r) (rec_cname c (q_name q) (r_canon res) :: rs_answer r) (rs_soa r)) /\
+  o_calls o = [(fqdn (r_canon res), q_qtype q)] /\ o_result o = res /\
+  o_orig_kept o = false /\ o_qname o = q_name q.
+Proof. exact rewritten_cname_outcome. Qed.
+Print Assumptions C02_rewritten_answer_not_filtered.
 
 (** The verdict does not depend on where the offending record sits. *)
 Theorem C02_position_independent :
@@ -86,10 +120,20 @@ Print Assumptions C02_blocked_iff_some_record_offends.
     the block list, nxdomain mode. *)
 Example C02_premises_satisfiable :
   let a := match_request [] in let b := match_request ex_block_rules in
-  let c := ex_cfg MNXDomain in let st := client_settings c ex_query_other in
-  response_filtering_applies a b (fun _ => false) (fun _ => false) c ex_query_other /\
+  let c := ex_cfg MNXDomain in let st := request_settings c ex_query_other in
+  response_filtering_applies a b (fun _ => false) (fun _ => false) no_ss Rewrites.isort c ex_query_other /\
   Forall (clean a b c st) [mkRR [120;46;116;101;115;116;46] 300 (DOther 16 7)] /\
   (exists res, check_rr a b st (strip_rr c (mkRR [120;46;116;101;115;116;46] 300 (DCNAME [98;46;97;46;116;101;115;116;46]))) = Some res) /\
   Forall (clean a b c st) [mkRR [98;46;97;46;116;101;115;116;46] 300
                   (DA (mkTA (mkAddr V4 1572395042 []) [57;51;46;49;56;52;46;50;49;54;46;51;52]))].
 Proof. exact ex_response_premises. Qed.
+
+(** Non-vacuity of the rewritten case: the rewrite "x.test -> b.a.test"
+    with "||a.test^" on the block list; the answer for the target is
+    delivered behind the CNAME. *)
+Example C02_rewritten_premises_satisfiable :
+  let c := ex_cfg_with MDefault None [ex_rw_to_blocked] BHEmpty in
+  prefilter c ex_query_other = PContinue false /\
+  exists res, verdict (match_request []) (match_request ex_block_rules) (fun _ => false) (fun _ => false) no_ss
+                Rewrites.isort c ex_query_other = Some res /\ is_rewritten_cname res = true.
+Proof. cbv zeta. split; [vm_compute; reflexivity|]. eexists. split; vm_compute; reflexivity. Qed.
